@@ -206,6 +206,16 @@ REFINE_USES = [
     'if col.num_nodes == 4 and (nrefined == 4 or (nrefined == 2 and irange == 1)):',
     'if frozenset((corner.name, col.node[(i + 1) % nn].name)) in sidenodes:',
     'refined_sides.append(i)',
+    # the dict of mid-side nodes is keyed by the UNORDERED pair of corner names (Conform.v: smap / upair)
+    'nodenames = frozenset((node1.name, node2.name))',
+    'sidenodes[nodenames] = self.nodelist[-1]',
+    'midpos = 0.5 * (node1.pos + node2.pos)',
+    'self.add_node(node(name, midpos))',
+    'self.add_node(node(name, col.centre))',
+    'centrenodes[col.name] = self.nodelist[-1]',
+    # new columns inherit the surface (Model.subdivide_cols)
+    'self.add_column(column(name, nodes, surface=col.surface))',
+    'self.columnlist[-1].num_layers = col.num_layers',
 ]
 
 
@@ -228,6 +238,9 @@ SUBDIV_USES = [
     'nodes = [centrenode if i == \'c\' else col.node[col.index_plus(i0, i)] for i in colnodes]',
     'self.add_column(column(name, nodes, surface=col.surface))',
     'centrenode = node(newnodename, col.centre)',
+    'self.columnlist[-1].num_layers = col.num_layers',
+    'col = self.column[column_name]',
+    'self.delete_column(column_name)',
 ]
 
 
@@ -325,6 +338,50 @@ def read_fan(fn):
     return child
 
 
+# ---------------------------------------------------------------- split_column
+SPLIT_USES = [
+    'if nn == 4:',
+    'nodenames = [node.name for node in col.node]',
+    'i0 = nodenames.index(nodename)',
+    'i = [(i0 + j) % nn for j in range(nn)]',
+    'col.centre = col.centroid',
+    'col.get_area()',
+    'self.add_column(col2)',
+    'self.set_column_num_layers(col2)',
+    'self.add_connection(connection([col, col2]))',
+]
+
+
+def read_split(fn):
+    """split_column: the node list of the new column  [col.node[i[a]], col.node[i[b]], col.node[i[c]]]
+    and the node deleted from the old one  del col.node[i[k]]  ->  (kept, new) local indices"""
+    def local(e):
+        if isinstance(e, ast.Subscript) and ast.unparse(e.value) == 'col.node' and isinstance(e.slice, ast.Subscript) \
+                and ast.unparse(e.slice.value) == 'i' and isinstance(e.slice.slice, ast.Constant) \
+                and isinstance(e.slice.slice.value, int) and not isinstance(e.slice.slice.value, bool) and 0 <= e.slice.slice.value < 4:
+            return e.slice.slice.value
+        raise Refusal('split_column %s: node expression %s' % (_where(e), ast.unparse(e)))
+    new = None; deleted = []
+    for n in ast.walk(fn):
+        if isinstance(n, ast.Assign) and len(n.targets) == 1 and isinstance(n.targets[0], ast.Name) and n.targets[0].id == 'col2':
+            if new is not None: raise Refusal('split_column: col2 assigned twice')
+            v = n.value
+            if not (isinstance(v, ast.Call) and ast.unparse(v.func) == 'column' and len(v.args) == 1 and ast.unparse(v.args[0]) == 'colname2'):
+                raise Refusal('split_column %s: col2 = %s' % (_where(n), ast.unparse(v)))
+            kw = {k.arg: k.value for k in v.keywords}
+            if set(kw) != {'node', 'surface'} or ast.unparse(kw['surface']) != 'col.surface' or not isinstance(kw['node'], ast.List):
+                raise Refusal('split_column %s: col2 = %s (expected node=[...], surface=col.surface)' % (_where(n), ast.unparse(v)))
+            new = [local(x) for x in kw['node'].elts]
+        if isinstance(n, ast.Delete):
+            for t in n.targets:
+                if ast.unparse(t).startswith('col.node'): deleted.append(local(t))
+                elif ast.unparse(t) != 'self.column[colname]': raise Refusal('split_column %s: del %s' % (_where(n), ast.unparse(t)))
+    if new is None or len(deleted) != 1: raise Refusal('split_column: new column %r, deleted nodes %r' % (new, deleted))
+    kept = [k for k in range(4) if k != deleted[0]]
+    if len(new) < 3: raise Refusal('split_column: new column has %d nodes' % len(new))
+    return kept, new
+
+
 # ---------------------------------------------------------------- emission
 HEADER = '''(* GENERATED on every run from %s by tools/props/c11_translate.py -- do not edit *)
 From Coq Require Import List Arith ZArith Reals Lra Lia.
@@ -366,6 +423,10 @@ def translate(repo_file):
     check_uses(sub, SUBDIV_USES, 'subdivide_column()')
     tri = _find(cls.body, ast.FunctionDef, 'triangulate_column')
     r.fan = read_fan(tri)
+    spl = _find(cls.body, ast.FunctionDef, 'split_column')
+    check_uses(spl, SPLIT_USES, 'split_column()')
+    r.split = read_split(spl)
+    split_entry = [[('C', k) for k in r.split[0]], [('C', k) for k in r.split[1]]]
 
     hdr = HEADER % repo_file
     g = [hdr, 'Definition transition_column : ttable :=\n  [']
@@ -378,6 +439,7 @@ def translate(repo_file):
     g.append(';\n   '.join('((%d, %d, %s), %s, %s)' % (nn, ns, 'None' if d is None else 'Some %d' % d, rule, coq_entry(e))
                            for nn, ns, d, rule, e in r.decomp) + '].\n\n')
     g.append('Definition gen_fan_child (n i : nat) : child := [%s].\n\n' % '; '.join(r.fan))
+    g.append('Definition gen_split_entry : entry := %s.\n\n' % coq_entry(split_entry))
     g.append('Open Scope Z_scope.\n' + tt_text)
     r.files = {'GenRefine': ''.join(g)}
 
@@ -390,6 +452,7 @@ def translate(repo_file):
     a.append('\nLemma transition_table_area_gen : table_area_ok transition_column.\nProof.\n'
              '  intros nn ents key e H1 H2. unfold transition_column in H1. split_ins; split_ins.\n'
              '  all: first [%s].\nQed.\n' % ' | '.join('exact %s' % n for n in names))
+    a.append('\nLemma split_area_gen : entry_area_ok 4 gen_split_entry.\nProof. entry_area_tac. Qed.\n')
     r.files['GenArea'] = ''.join(a)
 
     p = [imp]; pn = []
@@ -401,6 +464,19 @@ def translate(repo_file):
              '  intros nn ents key e H1 H2. unfold transition_column in H1. split_ins; split_ins.\n'
              '  all: first [%s].\nQed.\n' % ' | '.join('exact %s' % n for n in pn))
     r.files['GenPos'] = ''.join(p)
+
+    gimp = hdr + 'From P Require Import Cross.\nFrom Gen Require Import GenRefine.\nOpen Scope R_scope.\n\n'
+    gd = [gimp]; gn = []
+    for nn in r.table:
+        for k, e in r.table[nn].items():
+            nm = key_name(nn, k) + '_good'; gn.append(nm)
+            gd.append('Lemma %s : entry_good_ok %d %s.\nProof. entry_good_tac. Qed.\n' % (nm, nn, coq_entry(e)))
+    gd.append('\nLemma transition_table_good_gen : table_good_ok transition_column.\nProof.\n'
+              '  intros nn ents key e H1 H2. unfold transition_column in H1. split_ins; split_ins.\n'
+              '  all: first [%s].\nQed.\n' % ' | '.join('exact %s' % n for n in gn))
+    gd.append('\nLemma split_good_gen : forall cs c istart, length cs = 4%nat -> (istart < 4)%nat -> convex_ccw cs ->\n'
+              '  children_good cs c istart gen_split_entry.\nProof. split_good_tac. Qed.\n')
+    r.files['GenGood'] = ''.join(gd)
 
     d = [imp]; dn = []
     for nn, ns, dd, rule, e in r.decomp:
@@ -416,6 +492,7 @@ def translate(repo_file):
             r.lemma_to_entry[key_name(nn, k)] = ('transition', nn, k)
     for nn, ns, dd, rule, e in r.decomp:
         r.lemma_to_entry[dkey_name(nn, ns, dd)] = ('decompose', nn, (ns, dd))
+    r.lemma_to_entry['split_'] = ('split', 4, None)
     return r
 
 
